@@ -275,6 +275,66 @@ Definition enter (cfg : config) (targ : bytes) (w : world) (k : bool -> world ->
 
 Definition with_buf (st : lstate) (b : list N) : lstate := mkl b (l_setimes st) (l_tv st) (l_cursize st).
 
+Definition line_of (buf : list N) : bytes := match cstr_of buf with Some l => l | None => [] end.
+
+(* need = strlen(targ) + strlen(cp) + 250; if (need > cursize) { namebuf = malloc(need); cursize = need; } *)
+Definition new_cursize (targisdir : bool) (cursize : N) (targ nm : bytes) : N :=
+  let need := nlen targ + nlen nm + NAME_SLACK in
+  if targisdir && (cursize <? need) then need else cursize.
+
+(* np: namebuf after the snprintf, or targ itself when the target is not a directory *)
+Definition target_path (targisdir : bool) (cursize : N) (targ nm : bytes) : bytes :=
+  if targisdir then snprintf_trunc cursize (join_name targ nm) else targ.
+
+(* a D record whose name passed: np was stat'ed (ex).  nested = the recursive _sink(svr, np, bufp);
+   cont = the rest of the while loop, given the new value of setimes *)
+Definition handle_dir (cfg : config) (np : bytes) (mode : N) (ex : option kind) (setimes : bool) (tv : times)
+  (nested : world -> world * ret) (cont : bool -> world -> world * ret) (w : world) : world * ret :=
+  let '(go, w) :=
+    match ex with
+    | Some KFile => (false, w)                                                    (* errno = ENOTDIR; goto bad *)
+    | Some KDir => (true, if c_preserve cfg then snd (do_chmod cfg np mode w) else w)
+    | None => do_mkdir cfg np mode w
+    end in
+  if negb go then cont setimes (say (Err EBad) w)
+  else
+    match nested w with
+    | (w, RetEnd) =>
+      if setimes
+      then let '(ok, w) := do_utimes cfg np tv w in
+           cont false (if ok then w else say (Err EUtimes) w)
+      else cont setimes w
+    | other => other
+    end.
+
+(* a C record whose name passed *)
+Definition handle_file (cfg : config) (np : bytes) (mode : N) (size : Z) (setimes : bool) (tv : times)
+  (cont : bool -> world -> world * ret) (w : world) : world * ret :=
+  match do_open cfg np mode w with
+  | (None, w) => cont setimes (say (Err EBad) w)
+  | (Some (p, existed), w) =>
+    let w := if existed && c_preserve cfg then snd (on_fd OChmod p (fs_fchmod (w_fs w) p mode) w) else w in
+    let w := say Ack w in
+    match data_loop (S (length (w_in w))) (blk_cnt cfg) p size 0%Z [] 0 0 w with
+    | DFault => (w, RetFault)
+    | DFuel => (w, RetFuel)
+    | DEof w => (say (Err EData) w, RetEnd)
+    | DDone w =>
+      let '(tok, w) := on_fd OTrunc p (fs_truncate (w_fs w) p size) w in
+      let w := if tok then w else say (Err ETrunc) w in
+      match w_in w with                                                           (* _response *)
+      | [] => (say (Err EResp) w, RetEnd)
+      | r :: inp =>
+        let w := set_in w inp in
+        if negb (r =? 0) then (say (Err EResp) w, RetEnd)
+        else if setimes && tok
+        then let '(ok, w) := do_utimes cfg np tv w in
+             cont false (if ok then say Ack w else say (Err EUtimes) w)
+        else cont setimes (if tok then say Ack w else w)
+      end
+    end
+  end.
+
 Fixpoint loop (fuel : nat) (cfg : config) (targ : bytes) (targisdir : bool) (st : lstate) (w : world)
   {struct fuel} : world * ret :=
   match fuel with
@@ -289,76 +349,33 @@ Fixpoint loop (fuel : nat) (cfg : config) (targ : bytes) (targisdir : bool) (st 
       match buf_set buf cp 0 with                                     (* *cp = 0 *)
       | None => (w, RetFault)
       | Some buf1 =>
-        let w := set_in w inp in
         match buf1 with
         | [] => (w, RetFault)
         | b0 :: _ =>
           match (if ch =? c_nl then buf_set buf1 (cp - 1) 0 else Some buf1) with   (* *--cp = 0 *)
           | None => (w, RetFault)
           | Some buf2 =>
-            let w := logi (Line (match cstr_of buf2 with Some l => l | None => [] end)) w in
+            let w := logi (Line (line_of buf2)) (set_in w inp) in
             if b0 =? 1 then loop f cfg targ targisdir (with_buf st buf1) w
             else if b0 =? 2 then (w, RetEnd)
             else if b0 =? c_E then (say Ack w, RetEnd)
             else
-              let setimes := l_setimes st in
               match parse_ctl buf2 with
               | PFault => (w, RetFault)
               | PScrew why => (say (Err (EScrewup why)) w, RetEnd)
               | POk (CTimes tv) => loop f cfg targ targisdir (mkl buf2 true tv (l_cursize st)) (say Ack w)
               | POk (CFile isdir mode size nm) =>
                 if c_check cfg && negb (name_ok nm)
-                then loop f cfg targ targisdir (mkl buf2 setimes (l_tv st) (l_cursize st)) (say (Err EName) w)
+                then loop f cfg targ targisdir (mkl buf2 (l_setimes st) (l_tv st) (l_cursize st)) (say (Err EName) w)
                 else
-                let need := nlen targ + nlen nm + NAME_SLACK in
-                let cursize := if targisdir && (l_cursize st <? need) then need else l_cursize st in
-                let np := if targisdir then snprintf_trunc cursize (join_name targ nm) else targ in
-                let st1 := mkl buf2 setimes (l_tv st) cursize in
-                let '(ex, w) := do_stat cfg np w in
-                if isdir then
-                  let '(go, w) :=
-                    match ex with
-                    | Some KFile => (false, w)
-                    | Some KDir => (true, if c_preserve cfg then snd (do_chmod cfg np mode w) else w)
-                    | None => do_mkdir cfg np mode w
-                    end in
-                  if negb go then loop f cfg targ targisdir st1 (say (Err EBad) w)
-                  else
-                    match enter cfg np w (fun isd w' => loop f cfg np isd st0 w') with
-                    | (w, RetEnd) =>
-                      if setimes
-                      then let '(ok, w) := do_utimes cfg np (l_tv st) w in
-                           loop f cfg targ targisdir (mkl buf2 false (l_tv st) cursize)
-                                (if ok then w else say (Err EUtimes) w)
-                      else loop f cfg targ targisdir st1 w
-                    | other => other
-                    end
-                else
-                  match do_open cfg np mode w with
-                  | (None, w) => loop f cfg targ targisdir st1 (say (Err EBad) w)
-                  | (Some (p, existed), w) =>
-                    let w := if existed && c_preserve cfg then snd (on_fd OChmod p (fs_fchmod (w_fs w) p mode) w) else w in
-                    let w := say Ack w in
-                    match data_loop (S (length (w_in w))) (blk_cnt cfg) p size 0%Z [] 0 0 w with
-                    | DFault => (w, RetFault)
-                    | DFuel => (w, RetFuel)
-                    | DEof w => (say (Err EData) w, RetEnd)
-                    | DDone w =>
-                      let '(tok, w) := on_fd OTrunc p (fs_truncate (w_fs w) p size) w in
-                      let w := if tok then w else say (Err ETrunc) w in
-                      match w_in w with                                 (* _response *)
-                      | [] => (say (Err EResp) w, RetEnd)
-                      | r :: inp =>
-                        let w := set_in w inp in
-                        if negb (r =? 0) then (say (Err EResp) w, RetEnd)
-                        else if setimes && tok
-                        then let '(ok, w) := do_utimes cfg np (l_tv st) w in
-                             loop f cfg targ targisdir (mkl buf2 false (l_tv st) cursize)
-                                  (if ok then say Ack w else say (Err EUtimes) w)
-                        else loop f cfg targ targisdir st1 (if tok then say Ack w else w)
-                      end
-                    end
-                  end
+                  let cursize := new_cursize targisdir (l_cursize st) targ nm in
+                  let np := target_path targisdir cursize targ nm in
+                  let cont := fun se w' => loop f cfg targ targisdir (mkl buf2 se (l_tv st) cursize) w' in
+                  let '(ex, w) := do_stat cfg np w in
+                  if isdir
+                  then handle_dir cfg np mode ex (l_setimes st) (l_tv st)
+                                  (fun w' => enter cfg np w' (fun isd w'' => loop f cfg np isd st0 w'')) cont w
+                  else handle_file cfg np mode size (l_setimes st) (l_tv st) cont w
               end
           end
         end
